@@ -10,7 +10,8 @@ Record result := {
   r_tree : tree;
   r_errors : list perror;
   r_rec : tracker;
-  r_tokens_high : N
+  r_tokens_high : N;
+  r_dropped : list tok       (* GHOST: tokens popped and never given to the builder *)
 }.
 
 (* the fuel the entries run with: a bound on nesting depth and on each loop's iterations; every loop
@@ -22,7 +23,7 @@ Definition finish (r : outcome (unit * pstate)) : outcome result :=
   | Ok (_, s) =>
       match b_finish (st_builder s) with
       | Ok t => Ok {| r_tree := t; r_errors := rev (st_errors s); r_rec := st_rec s;
-                      r_tokens_high := st_pulled s |}
+                      r_tokens_high := st_pulled s; r_dropped := rev (st_dropped s) |}
       | Panic w => Panic w
       | OutOfFuel => OutOfFuel
       end
@@ -45,27 +46,22 @@ Definition parse_selection_set_items (dbg : bool) (recursion_limit : N) (items :
   : outcome result :=
   parse_selection_set_fuel (fuel_for items) dbg recursion_limit items.
 
-(* Parser::parse_type *)
-Definition parse_type_fuel (fuel : nat) := run_with fuel ty.
+(* Parser::parse_type: { let _root = start_node(TYPE); ty::ty; trailing_tokens_are_errors } *)
+Definition type_entry (fuel : nat) : M unit :=
+  node TYPE (ty fuel ;; trailing_tokens_are_errors fuel).
+Definition parse_type_fuel (fuel : nat) := run_with fuel type_entry.
 Definition parse_type_items (dbg : bool) (recursion_limit : N) (items : list item) : outcome result :=
   parse_type_fuel (fuel_for items) dbg recursion_limit items.
 
-(* SyntaxTree::<Type>::ty() *)
-Definition tree_ty (t : tree) : outcome skind :=
-  match tree_kind t with
-  | NAMED_TYPE => Ok NAMED_TYPE
-  | LIST_TYPE => Ok LIST_TYPE
-  | NON_NULL_TYPE => Ok NON_NULL_TYPE
-  | _ => Panic TyUnreachable
+(* SyntaxTree::<Type>::ty(): root.children().find_map(cst::Type::cast), else the root itself
+   (as a NamedType).  cst::Type::can_cast: NAMED_TYPE | LIST_TYPE | NON_NULL_TYPE.  Never panics. *)
+Definition is_type_node (t : tree) : bool :=
+  match t with
+  | Node NAMED_TYPE _ | Node LIST_TYPE _ | Node NON_NULL_TYPE _ => true
+  | _ => false
   end.
-
-(* parse_type followed by .ty(), as the compiler's Type::parse does *)
-Definition parse_type_ty_items (dbg : bool) (recursion_limit : N) (items : list item) : outcome result :=
-  match parse_type_items dbg recursion_limit items with
-  | Ok r => match tree_ty (r_tree r) with
-            | Ok _ => Ok r
-            | Panic w => Panic w
-            | OutOfFuel => OutOfFuel
-            end
-  | o => o
+Definition tree_ty (t : tree) : tree :=
+  match t with
+  | Node _ c => match find is_type_node c with Some x => x | None => t end
+  | Leaf _ _ => t
   end.
